@@ -20,6 +20,9 @@ CheckEdit(DS, r) ==
                     ELSE UnorderedOf(r.post) \cup DOMAIN S.ord
          IN IF ~WellFormed(DS, NormEmpty(T)) THEN "ok"  \* state already corrupted by an earlier, reported step
             ELSE IF r.res.err = "panic" THEN "panic"
+            \* the entry point was found by Find: every list entry on the way to it is in the store
+            ELSE IF \E i \in 1..Len(op.at) : IsEntry(SubSeq(op.at, 1, i)) /\ SubSeq(op.at, 1, i) \notin T.cont
+                 THEN "edit-addressed-entry-not-in-store"
             \* a payload that names one list entry twice (same key, same content): inserting it must
             \* fail - the second entry finds the first; upserting it is the upsert of the payload
             ELSE IF r.op.dup /\ op.k = "insert" /\ r.res.ok THEN "payload-with-one-key-twice-inserted"
